@@ -31,17 +31,26 @@ THEOREMS = [
     'CC.C14_ctors', 'CC.C14_lookup', 'CC.C14_lookup_params',
     'CC.C14_denotes_real', 'CC.C14_denotes_complex_shown_parts', 'CC.C14_agree_real_cartesian', 'CC.C14_agree_magnitude',
 ]
+# round 5 (CC/Properties/C14Polar.lean over CC/Properties/C18Polar.lean): polar, time-function, power and zero annotations
+LEAN_MODULE_EXTRA = ['CC.Properties.C14Polar']
+THEOREMS += ['CC.C14_denotes_polar', 'CC.C14_denotes_time', 'CC.C14_denotes_power', 'CC.C14_denotes_real_zero',
+             'CC.C14_denotes_complex_zero_part']
 OPEN_STATEMENTS = [
-    'C14_denotes at the level of the text is proved for the real voltage / current / potential annotations of a non-zero value '
-    '(CC.C14_denotes_real) — except power (|P| plus an arrow: oracle only) and the value 0 — below 1e16 outside the '
-    'rounds-up-to-one region',
+    'C14_denotes at the level of the text is proved for the real voltage / current / potential annotations (CC.C14_denotes_real '
+    'for a non-zero value, CC.C14_denotes_real_zero for exactly 0) and for the DC power annotation (CC.C14_denotes_power: text of '
+    '|P| read back by the real path + arrow down iff P > 0) — below 1e16 outside the rounds-up-to-one region (open finding)',
     'Cartesian complex annotations: CC.C14_denotes_complex_shown_parts states each branch with its is_zero condition, the signs '
     'and the accuracy of the part texts; WHICH parts appear is false at full strength (open finding: parts the prefixes can '
-    'express are dropped) and values with a zero part (purely real / imaginary phasors) are outside its hypotheses; '
+    'express are dropped).  Phasors with an EXACTLY zero part are proved (CC.C14_denotes_complex_zero_part); '
     'C14_agree_real_cartesian covers re >= 0 only',
-    'polar and time-function texts: structure only (C14_agree_magnitude: both start with the print_abs text of the magnitude '
-    'handed to them — RMS for polar, peak for the time function; no statement that the numbers agree); their read-back and the '
-    'printed angle / phase accuracy are covered by the correspondence and the oracle only',
+    'polar and time-function annotations: CC.C14_denotes_polar (the label read by parsePolar: magnitude RealOK w.r.t. d.absV, '
+    'angle within 0.5e-4 rad / 0.5e-2 deg of d.angle, shown iff above the cut-off) and CC.C14_denotes_time (w = 0: the real '
+    'annotation of Re of the signed value, read back; w != 0: amplitude·sin/cos(freq·t±phase) with the amplitude read back '
+    'w.r.t. d.absV) are statements about the run-time parameters d.absV, d.angle, d.phase, d.phaseDeg, d.wHz (abs / angle / '
+    'phase of the signed value, computed by libm): that these ARE the modulus and argument of the signed solution value — and '
+    'hence that RMS (polar) and peak (time) texts denote the quantity — is covered by the correspondence and the oracle only; '
+    'the whole time-function string has no verified reader (no reader in the Spec), its phase / frequency numbers read back by '
+    'C18_time_parts_read_back; the time-function POWER label is not p(t) (open finding)',
     'C14_agree for the numeric read-back of Cartesian vs polar (|q|, arg q are runtime parameters): oracle only',
     'pins (restate generated definitions): C14_sign, C14_factories, C14_ctors',
 ]
